@@ -2,6 +2,7 @@ import argparse
 import dis
 import importlib.util
 import pathlib
+import tokenize
 from json import dumps
 from os import linesep
 from types import CodeType
@@ -85,8 +86,11 @@ def main():
         source = eval(eval_, {"linesep": linesep})
         code = compile(cast(str, source), "<string>", "exec")
     elif file is not None:
-        source = file.read_text()
-        code = compile(cast(str, source), str(file), "exec")
+        # Compile the bytes of the file, so that an encoding declaration and a BOM
+        # are handled like Python handles them
+        code = compile(file.read_bytes(), str(file), "exec")
+        with tokenize.open(file) as source_file:
+            source = source_file.read()
     elif cmd is not None:
         # replace escaped newlines with newlines
         source = cmd.replace("\\n", "\n")
